@@ -58,6 +58,7 @@ fn main() {
         "C02" => props::c02::run(&args, &mut acc),
         "C03" => props::c03::run(&args, &mut acc),
         "C04" => props::c04::run(&args, &mut acc),
+        "C05" => props::c05::run(&args, &mut acc),
         "C07" => props::c07::run(&args, &mut acc),
         "C13" => props::c13::run(&args, &mut acc),
         "C14" => props::c14::run(&args, &mut acc),
